@@ -26,7 +26,11 @@ EXPLANATION = (
     "is accepted only from COMPROMISED/GOOD and enters FIXING together with loading the countdown; fix completion "
     "(countdown elapsed edge) sets GOOD; Software.apply_timestep runs the fix countdown exactly when FIXING and every "
     "override along the Software hierarchy (apply_timestep, _update_fix_status) calls super() on every path; the node "
-    "scan fans out to processes, services, applications and the file system only on the elapsed edge. NOT decided: "
+    "scan fans out to processes, services, applications and the file system only on the elapsed edge; R14.6 (a) *_duration "
+    "values travel through like-named hops and the `is not None` guard tests the setting that is stored, (b) a countdown "
+    "whose completion is tested with `== 0` after the decrement is armed only with values provably >= 1 (max(duration, 1)) - "
+    "armed with a configured 0 it never completes -, (c) the completed node scan scans every process, service and application "
+    "unconditionally. NOT decided: "
     "'exactly N ticks' (counter arithmetic, including durations 0 and 1); what happens to a running fix when another "
     "event (compromise, overwhelm, web request) overwrites FIXING (needs a reference model); File(**model_dump()) in "
     "FileSystem.copy_file copies both health fields of the source into the new object (construction, not a store)."
@@ -503,6 +507,12 @@ def r14_4(ctx: Ctx) -> None:
                            "cleared by its own start/timestep function" if ok else f"{cd} reset outside {start}/{tick}")
             else:
                 n_load += 1
+                # max(<duration>, 1): a zero duration completes on the next tick (R14.6 b) - still loaded from its own duration
+                if isinstance(v, ast.Call) and isinstance(v.func, ast.Name) and v.func.id == "max" and len(v.args) == 2 and not v.keywords:
+                    non_const = [a_ for a_ in v.args if not isinstance(a_, ast.Constant)]
+                    consts = [a_ for a_ in v.args if isinstance(a_, ast.Constant)]
+                    if len(non_const) == 1 and len(consts) == 1 and consts[0].value == 1:
+                        v = non_const[0]
                 ok = (s.owner == start and isinstance(v, ast.Attribute) and v.attr == dur and unparse(v.value) in dur_recv
                       and unparse(s.recv) == "self")
                 ctx.record("R14.4", f"{s.path}::{s.owner}::{cd} <- {dur}", s.where, ok,
@@ -647,9 +657,120 @@ def r14_5(ctx: Ctx) -> None:
                    f"sources {sorted(srcs)} -> {tgt}" + ("" if ok else f"; a folder that is {sorted(need - srcs)} when its restore completes stays that way"))
 
 
+def _dur_words(name: str) -> Set[str]:
+    stem = {"fixing": "fix", "restoring": "restore", "scanning": "scan", "restarting": "restart", "installing": "install"}
+    return {stem.get(w, w) for w in name.strip("_").split("_") if w and w not in ("duration", "default")}
+
+
+def _dur_source_name(v: ast.AST) -> Optional[str]:
+    """The configured-duration name a value reads: attribute name, string key of [..] / .get(..); through int()/float()."""
+    while isinstance(v, ast.Call) and isinstance(v.func, ast.Name) and v.func.id in ("int", "float") and v.args:
+        v = v.args[0]
+    if isinstance(v, ast.Attribute):
+        return v.attr
+    if isinstance(v, ast.Subscript) and isinstance(v.slice, ast.Constant) and isinstance(v.slice.value, str):
+        return v.slice.value
+    if isinstance(v, ast.Call) and isinstance(v.func, ast.Attribute) and v.func.attr == "get" and v.args and isinstance(v.args[0], ast.Constant) \
+            and isinstance(v.args[0].value, str):
+        return v.args[0].value
+    return None
+
+
+def r14_6(ctx: Ctx) -> None:
+    """'... take their set time': (a) a duration reaches the object through like-named hops (a folder's restore_duration is filled
+    from the *restore* default, under the guard that tests that same default); (b) a countdown that is decremented without a `> 0`
+    guard is tested for completion with `<= 0`, not `== 0` (a configured duration of 0 steps below zero on the first tick);
+    (c) the completed node scan scans every process, service and application unconditionally, and the file system."""
+    ix = ctx.ix
+    ctx.rule("R14.6", "(a) *_duration values travel through like-named hops, guard and source agree; (b) countdowns decremented without a "
+                      "`> 0` guard complete on `<= 0`; (c) the node-scan fan-out is unconditional")
+    n_a = 0
+    for fn in ix.functions:
+        if isinstance(fn.node, ast.Lambda) or not fn.path.startswith(("src/primaite/simulator/", "src/primaite/game/game.py")):
+            continue
+        for st in ast.walk(fn.node):
+            if not (isinstance(st, ast.Assign) and len(st.targets) == 1 and isinstance(st.targets[0], ast.Attribute) and st.targets[0].attr.endswith("_duration")):
+                continue
+            src = _dur_source_name(st.value)
+            if src is None or not src.endswith("_duration"):
+                continue
+            n_a += 1
+            a, b = _dur_words(st.targets[0].attr), _dur_words(src)
+            ok = a <= b or b <= a
+            ctx.record("R14.6", ctx.key(fn, f"{unparse(st.targets[0])[:50]} is filled from its own setting"), fn.loc(st), ok,
+                       f"{unparse(st.targets[0])} = {unparse(st.value)[:60]}" + ("" if ok else
+                       f": `{st.targets[0].attr}` takes the value configured for `{src}` - the operation then lasts as long as a different one"))
+        for iff in ast.walk(fn.node):
+            if isinstance(iff, ast.If) and len(iff.body) == 1 and isinstance(iff.body[0], ast.Assign) and isinstance(iff.test, ast.Compare) \
+                    and len(iff.test.ops) == 1 and isinstance(iff.test.ops[0], ast.IsNot) and isinstance(iff.test.comparators[0], ast.Constant) \
+                    and iff.test.comparators[0].value is None:
+                g_name, v_name = _dur_source_name(iff.test.left), _dur_source_name(iff.body[0].value)
+                if g_name and v_name and g_name.endswith("_duration") and v_name.endswith("_duration"):
+                    n_a += 1
+                    ctx.record("R14.6", ctx.key(fn, f"guard on {g_name} stores {g_name}"), fn.loc(iff), g_name == v_name,
+                               f"if {unparse(iff.test)}: {unparse(iff.body[0])[:70]}" + ("" if g_name == v_name else " - the guard tests one setting, the store reads another"))
+    ctx.floor("R14.6", "duration hops", n_a, 8)
+    # arming stores per countdown attribute (anywhere in the simulator): value provably >= 1?
+    arming: Dict[str, List[Tuple[FuncInfo, ast.AST, bool]]] = {}
+    for fn in ix.functions:
+        if isinstance(fn.node, ast.Lambda) or not fn.path.startswith("src/primaite/simulator/"):
+            continue
+        for st in ast.walk(fn.node):
+            if isinstance(st, ast.Assign) and len(st.targets) == 1 and isinstance(st.targets[0], ast.Attribute) \
+                    and st.targets[0].attr.lstrip("_").endswith("countdown") and not isinstance(st.value, ast.Constant):
+                v = st.value
+                ge1 = isinstance(v, ast.Call) and isinstance(v.func, ast.Name) and v.func.id == "max" and any(
+                    isinstance(a_, ast.Constant) and isinstance(a_.value, (int, float)) and a_.value >= 1 for a_ in v.args)
+                arming.setdefault(st.targets[0].attr, []).append((fn, st, ge1))
+    n_b = 0
+    for fn in ix.functions:
+        if isinstance(fn.node, ast.Lambda) or not fn.path.startswith("src/primaite/simulator/"):
+            continue
+        decs = [x for x in ast.walk(fn.node) if isinstance(x, ast.AugAssign) and isinstance(x.op, ast.Sub) and isinstance(x.target, ast.Attribute)
+                and x.target.attr.lstrip("_").endswith("countdown")]
+        if not decs:
+            continue
+        g = CFG(fn.node)
+        for d in decs:
+            cd = unparse(d.target)
+            dn = next((n for n in g.nodes if n.ast is d), None)
+            if dn is None:
+                continue
+            eqs = [n for n in g.nodes if n.kind == "cond" and isinstance(n.ast, ast.Compare) and len(n.ast.ops) == 1 and isinstance(n.ast.ops[0], (ast.Eq, ast.NotEq))
+                   and unparse(n.ast.left) == cd and isinstance(n.ast.comparators[0], ast.Constant) and n.ast.comparators[0].value == 0
+                   and n.id in g.reachable(dn)]
+            n_b += 1
+            weak = [(f_, st) for f_, st, ge1 in arming.get(d.target.attr, []) if not ge1]
+            ok = not eqs or not weak
+            ctx.record("R14.6", ctx.key(fn, f"{cd}: completion test fits the values it is armed with"), fn.loc(d), ok,
+                       ("completion is tested with an ordering comparison" if not eqs else "every arming store is max(<duration>, 1) or larger") if ok else
+                       f"completion of {cd} is tested with `== 0` after the decrement (line {eqs[0].lineno}), but {weak[0][0].short} arms it with "
+                       f"`{unparse(weak[0][1].value)[:50]}`, which can be 0 (durations of 0 are allowed): armed with 0 it never reaches the "
+                       "completion test at 0 again and the operation never completes")
+    ctx.floor("R14.6", "countdown decrements", n_b, 6)
+    f = ix.method("Node.apply_timestep")
+    scans = [lp for lp in ast.walk(f.node) if isinstance(lp, ast.For) and any(call_name(c) == "scan" for b in lp.body for c in calls_in(b))]
+    colls = {"processes", "services", "applications"}
+    seen_c: Set[str] = set()
+    for lp in scans:
+        which = next((k for k in colls if f"self.{k}" in unparse(lp.iter)), None)
+        if which is None:
+            continue
+        seen_c.add(which)
+        cond = any(isinstance(x, (ast.If, ast.IfExp, ast.Continue, ast.Break)) for b in lp.body for x in ast.walk(b))
+        ctx.record("R14.6", ctx.key(f, f"node scan covers every member of {which}"), f.loc(lp), not cond,
+                   f"unconditional scan() on every member of self.{which}" if not cond else
+                   f"the completed node scan skips some {which}: their visible health keeps a stale value although the scan covered them")
+    fs = any(call_name(c) == "scan" and "file_system" in unparse(c.func.value) for c in calls_in(f.node))
+    ctx.record("R14.6", ctx.key(f, "node scan covers processes, services, applications and the file system"), f.loc(), seen_c == colls and fs,
+               f"fan-out over {sorted(seen_c)} and file_system={fs}")
+
+
+
 def check(ctx: Ctx) -> None:
     r14_5(ctx)
     r14_1(ctx)
     r14_2(ctx)
     r14_3(ctx)
     r14_4(ctx)
+    r14_6(ctx)
